@@ -697,6 +697,8 @@ Proof.
   destruct p; cbn [handle_packet]; try (split; [apply wframe_refl|repeat constructor]).
   - (* PUBLISH *)
     destruct (has_wild topic); [split; [apply wframe_refl|constructor]|].
+    match goal with |- context [if ?b then HErrRead s (Some 148) else _] => destruct b end;
+      [split; [apply wframe_refl|constructor]|].
     match goal with |- context [if ?b then HErrRead s (Some 130) else _] => destruct b end;
       [split; [apply wframe_refl|constructor]|].
     match goal with |- context [if ?b then HErrRead s (Some 147) else _] => destruct b end;
@@ -2577,6 +2579,7 @@ Lemma handle_packet_subs c k p s :
 Proof.
   intros Hp. destruct p; try discriminate; cbn [handle_packet]; try reflexivity.
   - destruct (has_wild topic); [reflexivity|].
+    match goal with |- context [if ?b then HErrRead s (Some 148) else _] => destruct b end; [reflexivity|].
     match goal with |- context [if ?b then HErrRead s (Some 130) else _] => destruct b end; [reflexivity|].
     match goal with |- context [if ?b then HErrRead s (Some 147) else _] => destruct b end; [reflexivity|].
     now rewrite handle_publish_subs.
